@@ -198,7 +198,7 @@ def worker_part(run, eng):
     run.log('negative controls: both deviations of PearlWorker refuted by TLC')
     # schedules of the counterexamples on the real storage
     traces = []
-    for sc in ['busy-redefer', 'double-defer']:
+    for sc in ['busy-redefer', 'double-defer', 'channel-full']:
         for rep in range(1 if q else 3):
             tr = os.path.join(run.work, 'worker-%s-%d.ndjson' % (sc, rep))
             out = os.path.join(run.work, 'worker-%s-%d.out' % (sc, rep))
@@ -861,12 +861,27 @@ def check_C06(run):
     suites = [
         dict(name='crash-2k', consts=dict(Keys='{1, 2}', MaxTs='2', Sizes='{"s", "e4k+"}'), genlen=3 if q else 4,
              acts=['write', 'close_active', 'create_active'], nkeys=2, sample=(1, 17) if q else (1, 3)),
+        # a second session before the crash: the last blob is active again while its index file from the first
+        # session is still on disk (stale as soon as something is appended)
+        dict(name='crash-reopen', consts=dict(Keys='{1, 2}', MaxTs='2'), genlen=4 if q else 5,
+             acts=['write', 'close_active', 'restart'], restarts_set=store.restarts(gs=(True,), dmgs=('keep',)), nkeys=2,
+             sample=(1, 12) if q else (1, 3)),
     ]
+    if not q:
+        # thorough: the larger sets of behaviours with images at step boundaries, and the behaviours of the quick
+        # tier once more with an image after EVERY I/O event (the recording is written out once per image: the
+        # size of the trace grows with the square of the behaviour's length)
+        suites += [dict(name='crash-2k-dense', consts=dict(Keys='{1, 2}', MaxTs='2', Sizes='{"s", "e4k+"}'), genlen=3,
+                        acts=['write', 'close_active', 'create_active'], nkeys=2, sample=(1, 17), dense=True),
+                   dict(name='crash-reopen-dense', consts=dict(Keys='{1, 2}', MaxTs='2'), genlen=4,
+                        acts=['write', 'close_active', 'restart'], restarts_set=store.restarts(gs=(True,), dmgs=('keep',)), nkeys=2,
+                        sample=(1, 12), dense=True)]
     images = failed = 0
     kinds = {}
     for s in suites:
         s = dict(s)
         nkeys = s.pop('nkeys')
+        dense = s.pop('dense', False)
         r = se.generate(**s)
         shards = min(NCPU, 12)
         files = [open(os.path.join(run.work, 'crshard-%d.txt' % i), 'w') for i in range(shards)]
@@ -883,7 +898,7 @@ def check_C06(run):
             h = dict(rt='mt' if i % 2 else 'ct', bloom='small', group=2, wait=True, seed=run.seed * 100 + i)
             out = os.path.join(run.work, 'crash-%d.out' % i)
             tr = os.path.join(run.work, 'crash-%d.ndjson' % i)
-            cmd = [os.path.join(BIN, 'crash'), '--cfg', json.dumps(h), '--nkeys', str(nkeys), '--out', tr] + ([] if q else ['--dense'])
+            cmd = [os.path.join(BIN, 'crash'), '--cfg', json.dumps(h), '--nkeys', str(nkeys), '--out', tr] + (['--dense'] if dense else [])
             procs.append((subprocess.Popen(cmd, stdin=open(files[i].name), stdout=open(out, 'w'), stderr=open(out + '.err', 'w')), out, tr, h))
         for p, out, tr, h in procs:
             rc = p.wait()
